@@ -53,3 +53,30 @@ Proof.
   intros HI. unfold set_dir. destruct (in_ctx s && Bool.eqb (odir s) d); [exact HI|].
   apply set_odir_Inv. destruct (in_ctx s); [apply Inv_record|]; exact HI.
 Qed.
+
+Lemma opp_q0 : (- q0)%Qc = q0.
+Proof. apply Qc_is_canon. reflexivity. Qed.
+
+Lemma set_oc_zero_Inv s : Inv s -> Inv (set_oc s (fun _ => q0)).
+Proof.
+  intros [A B C D E G H I J]. constructor; cbn; try assumption.
+  intros r. split; [symmetry; apply opp_q0|reflexivity].
+Qed.
+
+Lemma set_obj_loop_Inv l : forall s, Inv s -> Inv (fst (set_obj_loop l s)).
+Proof.
+  induction l as [|[r c] l IH]; intros s HI; cbn [set_obj_loop]; [exact HI|].
+  destruct (rin s r) eqn:Er; [|exact HI].
+  apply IH. destruct HI as [A B C D E G H I J]. constructor; cbn; try assumption.
+  intros r0. names. destruct (Z.eqb_spec r0 r) as [->|Hne].
+  - split; [reflexivity|congruence].
+  - apply E.
+Qed.
+
+Lemma set_obj_Inv l a s : Inv s -> Inv (fst (set_obj l a s)).
+Proof.
+  intros HI. unfold set_obj. apply set_obj_loop_Inv.
+  set (s0 := if in_ctx s then record (UObjective (oc s) (odir s)) s else s).
+  assert (Inv s0) by (unfold s0; destruct (in_ctx s); [apply Inv_record|]; exact HI).
+  destruct a; [assumption|apply set_oc_zero_Inv; assumption].
+Qed.
